@@ -4,7 +4,7 @@
 From Coq Require Import ZArith List Bool NArith.
 Import ListNotations.
 Require Import PV.Core.Obj PV.Core.Val PV.Core.Cls PV.Core.Member PV.Core.CanAssignK PV.Core.CanAssign PV.Core.C04Run.
-Require Import PV.Proofs.C04Laws PV.Proofs.C04Mono PV.Proofs.C04Refl PV.Proofs.C04Witness PV.Gen.ClassTable.
+Require Import PV.Proofs.C04Laws PV.Proofs.C04Mono PV.Proofs.C04Refl PV.Proofs.C04Simple PV.Proofs.C04Witness PV.Gen.ClassTable.
 
 (* a union is accepted exactly when each member is (every class table, fuel, mode) *)
 Theorem C04_union_right_iff_all : forall ct n e A bs,
@@ -70,6 +70,44 @@ Example C04_refl_ok_example :
                          VLeaf (LNewType 1 c_int); VLeaf (LAny 2)]) = true.
 Proof. exact refl_ok_example. Qed.
 Print Assumptions C04_refl_ok_example.
+
+(* ---- the simple fragment (Any, nominally compared classes, scalar literals, unions of those):
+   what the type-variable solver (C15) manipulates ---- *)
+(* closed form: beyond 3 units of fuel the verdict is TypeVar/Simple.v's s_acc over the atom relation *)
+Theorem C04_simple_closed_form : forall ct n A B, simple A = true -> simple B = true ->
+  can_assign_f ct (S (S (S n))) false A B = acc_simple ct A B.
+Proof. exact simple_closed_form. Qed.
+Print Assumptions C04_simple_closed_form.
+
+(* transitive through a middle value that is not Any, for every class table whose nominal
+   relation is transitive into nominally compared classes *)
+Theorem C04_simple_transitive : forall ct, tassign_transitive ct -> nominal_upward ct ->
+  forall A B C, simple A = true -> simple B = true -> simple C = true -> not_any B = true ->
+  acc_simple ct A B = true -> acc_simple ct B C = true -> acc_simple ct A C = true.
+Proof. exact acc_simple_trans. Qed.
+Print Assumptions C04_simple_transitive.
+
+(* ... and both table facts hold, for all class codes, on the table dumped from the implementation *)
+Theorem C04_table_tassign_transitive : tassign_transitive table.
+Proof. exact table_tassign_transitive. Qed.
+Print Assumptions C04_table_tassign_transitive.
+
+Theorem C04_table_nominal_upward : nominal_upward table.
+Proof. exact table_nominal_upward. Qed.
+Print Assumptions C04_table_nominal_upward.
+
+Theorem C04_simple_transitive_table : forall n A B C,
+  simple A = true -> simple B = true -> simple C = true -> not_any B = true ->
+  can_assign_f table (S (S (S n))) false A B = true -> can_assign_f table (S (S (S n))) false B C = true ->
+  can_assign_f table (S (S (S n))) false A C = true.
+Proof. exact simple_transitive_table. Qed.
+Print Assumptions C04_simple_transitive_table.
+
+Theorem C04_simple_reflexive_table : forall n A,
+  simple A = true -> forallb (atom_ok table) (atoms_of A) = true ->
+  can_assign_f table (S (S (S n))) false A A = true.
+Proof. exact simple_reflexive_table. Qed.
+Print Assumptions C04_simple_reflexive_table.
 
 (* obligations over the table dumped from the implementation *)
 Theorem C04_table_nominal_refl : forallb (fun c => tassign table c c) classes = true.
